@@ -23,6 +23,7 @@ import numpy as np
 
 from ..cert import DM, frac_json, py_psd_cert
 from ..common import InfraError
+from ..exact import Pure, call_rng, describe, present_nd
 from ..pool import Result, fold, run_pool, worker_driver
 from .. import qgen
 
@@ -34,7 +35,11 @@ RULE = ("states on dA (x) dB, dA,dB in 2..4 (unequal allowed), from the seeded g
         "non-trivial: is_ppt/is_npt - certified interval clear of -tol by 1e-9 and the state is not maximally mixed; is_separable - the oracle applies "
         "(separable by construction with >= 1 term, or certified lambda_min <= -1e-6, or dA*dB <= 6 with a decided PPT verdict, or an invariance pair whose members "
         "did not both raise); in_separable_ball - relative margin >= 1e-9 from the boundary; has_symmetric_extension - separable by construction or NPT by margin. "
-        "distinct = sha1 of (function, call form, matrix bytes).")
+        "distinct = sha1 of (function, call form, matrix bytes). "
+        "presentation: every call of is_ppt / is_npt / is_separable / in_separable_ball / has_symmetric_extension / partial_transpose / swap receives the same values in a "
+        "freshly drawn presentation (C / Fortran / strided memory layout; real-valued matrices as float64, integer-valued ones also as int64); the array handed over "
+        "must be untouched afterwards; is_ppt, in_separable_ball and (dA*dB <= 6, first dim form) is_separable are called a second time on the same object and must "
+        "return the same verdict.")
 ASSUMPTIONS = [
     "the float matrix handed to toqito differs from the exact rational mixture it was built from by <= 4e-15 entrywise (checked on every instance against the Lean sepMix); "
     "'separable by construction' refers to that exact mixture",
@@ -452,6 +457,19 @@ def _drv(task):
     return worker_driver() if task.get("model_ok", True) else None
 
 
+def _give(task, mat, *key):
+    """(array, guard): the same values in a presentation drawn for this call (a function of the task's presentation seed and the call's identity)"""
+    a = present_nd(call_rng(task.get("pres"), *key), np.array(mat, copy=True))
+    return a, Pure(a)
+
+
+def _purity(res, fn, guard, a, args):
+    why = guard.modified()
+    if why is not None:
+        res.violation(f"{fn}: caller's arguments were modified ({why})", {"function": fn, "args": args, "modified": why, "presentation": describe(a), "check": "purity"})
+    return why
+
+
 def _X(inst):
     X = DM.exact_float(np.asarray(inst["rho"], dtype=complex))
     if not X.is_herm():
@@ -511,11 +529,20 @@ def work_ppt(task, res: Result):
             at8 = True
         elif hi is not None and float(hi) <= -1e-8 - 1e-10:
             at8 = False
-        args = {"sys": sys_, "dim_form": form, "tol": tol, "dA": dA, "dB": dB, "family": inst["family"], "meta": inst.get("meta"), "rho": rho}
+        args = {"sys": sys_, "dim_form": form, "tol": tol, "dA": dA, "dB": dB, "family": inst["family"], "meta": inst.get("meta"), "rho": rho, "pres": task.get("pres")}
         out = {}
+        pres_txt = {}
         for name, fn in (("is_ppt", is_ppt), ("is_npt", is_npt)):
+            arr, guard = _give(task, rho, name, sys_, form, tol)
+            pres_txt[name] = describe(arr)
             try:
-                out[name] = bool(fn(np.array(rho, copy=True), sys_, dim_arg(form, dA, dB), tol))
+                out[name] = bool(fn(arr, sys_, dim_arg(form, dA, dB), tol))
+                if _purity(res, name, guard, arr, args) is None and name == "is_ppt":
+                    again = bool(fn(arr, sys_, dim_arg(form, dA, dB), tol))   # the SAME object again
+                    res.count("repeat-call/is_ppt")
+                    if again != out[name] or guard.modified() is not None:
+                        res.violation(f"is_ppt: a second call on the same object returns {again}, the first returned {out[name]}",
+                                      {"function": "is_ppt", "args": args, "impl": [out[name], again], "presentation": describe(arr), "check": "repeat"})
             except Exception as e:
                 out[name] = f"raise:{type(e).__name__}"
                 out[name + "_exc"] = f"{type(e).__name__}: {str(e)[:160]}"
@@ -524,7 +551,7 @@ def work_ppt(task, res: Result):
         trivial = inst["family"] == "maxmixed"
         res.case(desc, decided and not trivial, f"is_ppt/{inst['family']}/" + ("ppt" if expected else "npt" if expected is False else "near-threshold"))
         base = {"args": args, "certified": {"lo": None if lo is None else float(lo), "hi": None if hi is None else float(hi), "how": cert["how"]},
-                "tol_arg": tol, "dim_form": form, "verdict_at_1e-8": at8, "model": expected, "model_verdict": cert["verdict"]}
+                "tol_arg": tol, "dim_form": form, "verdict_at_1e-8": at8, "model": expected, "model_verdict": cert["verdict"], "presentation": pres_txt}
         if isinstance(out["is_ppt"], str):
             res.violation(f"is_ppt raised on a valid input ({form} dim, {dA}x{dB}): {out.get('is_ppt_exc')}",
                           {"function": "is_ppt", **base, "impl": out["is_ppt"], "exception": out.get("is_ppt_exc"), "theorem": "pptVerdict_sound"})
@@ -549,7 +576,9 @@ def work_pt_tie(task, res: Result):
     X = _X(inst)
     n = dA * dB
     for sys_ in (1, 2):
-        impl = np.asarray(partial_transpose(np.array(rho, copy=True), [sys_ - 1], [dA, dB]))
+        arr, guard = _give(task, rho, "pt", sys_)
+        impl = np.asarray(partial_transpose(arr, [sys_ - 1], [dA, dB]))
+        _purity(res, "partial_transpose", guard, arr, {"sys": sys_, "dA": dA, "dB": dB, "rho": rho, "pres": task.get("pres")})
         mine = pt_dm(X, dA, dB, sys_)
         if drv is not None:
             ans = drv.ask("c15_pt", {"dA": dA, "dB": dB, "sys": sys_, "X": X.json()})
@@ -595,7 +624,7 @@ def early_criteria(rho, dA, dB):
 
 def _sep_violation(res, what, inst, form, out, branch, exc, extra=None):
     info = {"function": "is_separable", "args": {"dA": inst["dA"], "dB": inst["dB"], "dim_form": form, "family": inst["family"], "k": inst.get("k"), "meta": inst.get("meta"),
-                                                  "variant": inst.get("variant", "base"), "rho": inst["rho"]},
+                                                  "variant": inst.get("variant", "base"), "rho": inst["rho"], "pres": inst.get("pres")},
             "impl": out, "branch": branch, "exception": exc, "separable_by_construction": bool(inst.get("sep")), "dA": inst["dA"], "dB": inst["dB"]}
     info.update(extra or {})
     if inst.get("sep"):
@@ -617,6 +646,7 @@ def work_sep(task, res: Result):
     D = dA * dB
     X = _X(inst)
     fam = inst["family"]
+    inst = dict(inst, pres=task.get("pres"))
     if inst.get("sep"):
         check_sepmix_exact(drv, inst, res)
     cert = certify_lammin(drv, X, dA, dB, 2, Fraction(1, 10**8))
@@ -625,7 +655,15 @@ def work_sep(task, res: Result):
     npt = hi is not None and float(hi) <= -1e-6 * tr
     verdicts = {}
     for form in forms:
-        out, branch, exc = observed_call("is_separable", np.array(rho, copy=True), sep_dim_arg(form, dA, dB))
+        arr, guard = _give(task, rho, "sep", form)
+        pargs = {"dA": dA, "dB": dB, "dim_form": form, "family": fam, "rho": rho, "pres": task.get("pres")}
+        out, branch, exc = observed_call("is_separable", arr, sep_dim_arg(form, dA, dB))
+        if _purity(res, "is_separable", guard, arr, pargs) is None and D <= 6 and form == forms[0]:
+            out_b, branch_b, _ = observed_call("is_separable", arr, sep_dim_arg(form, dA, dB))   # the SAME object again
+            res.count("repeat-call/is_separable")
+            if out_b != out or guard.modified() is not None:
+                res.violation(f"is_separable: a second call on the same object returns {out_b} ({branch_b}), the first returned {out} ({branch})",
+                              {"function": "is_separable", "args": pargs, "impl": [out, out_b], "presentation": describe(arr), "check": "repeat"})
         verdicts[form] = (out, branch)
         res.count(f"is_separable-branch/{branch}/{out}")
         desc = {"fn": "is_separable", "dim_form": form, "dA": dA, "dB": dB, "family": fam, "k": inst.get("k"), "rho": digest(rho)}
@@ -641,7 +679,7 @@ def work_sep(task, res: Result):
         elif D <= 6 and not inst.get("sep"):
             # agreement with the PPT criterion (and with the certified verdict when decided)
             try:
-                p = bool(is_ppt(np.array(rho, copy=True) / np.trace(rho), 2, [dA, dB], 1e-8))
+                p = bool(is_ppt(_give(task, np.array(rho, copy=True) / np.trace(rho), "sep-ppt", form)[0], 2, [dA, dB], 1e-8))
             except Exception as e:
                 p = f"raise:{type(e).__name__}"
             decided = (lo is not None and float(lo) >= -1e-8 * tr + MARGIN) or (hi is not None and float(hi) <= -1e-8 * tr - MARGIN)
@@ -665,7 +703,9 @@ def work_sep(task, res: Result):
             if float(np.max(np.abs(re + 1j * im - rot))) > 1e-13 * max(1.0, tr):
                 raise InfraError("float local conjugation differs from the exact Lean localConj")
             res.count("localconj-exact-checked")
-        sw = np.asarray(swap(np.array(rho, copy=True), [1, 2], [dA, dB]))
+        arr, guard = _give(task, rho, "swap")
+        sw = np.asarray(swap(arr, [1, 2], [dA, dB]))
+        _purity(res, "swap", guard, arr, {"dA": dA, "dB": dB, "rho": rho, "pres": task.get("pres")})
         if drv is not None:
             ans = drv.ask("c15_swap", {"dA": dA, "dB": dB, "X": X.json()})
             ok = all(Fraction(float(z.real)) == Fraction(int(r[0]), int(r[1])) and Fraction(float(z.imag)) == Fraction(int(i[0]), int(i[1]))
@@ -676,7 +716,9 @@ def work_sep(task, res: Result):
         variants = [v for v in (("local-unitary", rot, dA, dB), ("swap", sw, dB, dA)) if v[0] in task.get("variants", ["local-unitary", "swap"])]
         for vname, mat, a_, b_ in variants:
             inst2 = dict(inst, rho=mat, dA=a_, dB=b_, variant=vname, terms=None)
-            out2, branch2, exc2 = observed_call("is_separable", np.array(mat, copy=True), [a_, b_])
+            arr, guard = _give(task, mat, "sep-variant", vname)
+            out2, branch2, exc2 = observed_call("is_separable", arr, [a_, b_])
+            _purity(res, "is_separable", guard, arr, {"dA": a_, "dB": b_, "dim_form": "list", "family": fam, "variant": vname, "rho": mat, "pres": task.get("pres")})
             res.count(f"is_separable-branch/{branch2}/{out2}")
             both_raise = isinstance(out2, str) and isinstance(base_out, str)
             res.case({"fn": "is_separable/" + vname, "dA": dA, "dB": dB, "family": fam, "rho": digest(rho)}, not both_raise, f"invariance/{vname}/" + ("both-raise" if both_raise else "compared"))
@@ -727,16 +769,23 @@ def work_ball(task, res: Result):
     else:
         rel = 1.0
     near_zero_trace = abs(float(trq)) < 1e-9 and trq != 0
+    arr, guard = _give(task, M, "ball")
     try:
-        impl = bool(in_separable_ball(np.array(M, copy=True)))
+        impl = bool(in_separable_ball(arr))
         exc = None
+        if _purity(res, "in_separable_ball", guard, arr, {"form": form, "n": n, "M": M, "pres": task.get("pres")}) is None:
+            again = bool(in_separable_ball(arr))   # the SAME object again
+            res.count("repeat-call/in_separable_ball")
+            if again != impl or guard.modified() is not None:
+                res.violation(f"in_separable_ball: a second call on the same object returns {again}, the first returned {impl}",
+                              {"function": "in_separable_ball", "args": {"form": form, "n": n, "M": M, "pres": task.get("pres")}, "impl": [impl, again], "presentation": describe(arr), "check": "repeat"})
     except Exception as e:
         impl, exc = f"raise:{type(e).__name__}", f"{type(e).__name__}: {str(e)[:160]}"
     decided = rel >= MARGIN and not near_zero_trace
     res.case({"fn": "in_separable_ball", "form": form, "n": n, "M": digest(M)}, decided, f"ball/{form}/" + ("inside" if model else "outside") + ("" if decided else "/boundary"))
     if isinstance(impl, str) or (decided and impl != model):
         res.violation(f"in_separable_ball = {impl} but the exact decision is {model} (n={n}, relative margin {rel:.3g})",
-                      {"function": "in_separable_ball", "args": {"form": form, "n": n, "ndim": int(np.asarray(M).ndim), "M": M}, "impl": impl, "model": model, "exception": exc, "margin": rel, "theorem": "ball_exact"})
+                      {"function": "in_separable_ball", "args": {"form": form, "n": n, "ndim": int(np.asarray(M).ndim), "M": M, "pres": task.get("pres")}, "presentation": describe(arr), "impl": impl, "model": model, "exception": exc, "margin": rel, "theorem": "ball_exact"})
 
 
 def work_symext(task, res: Result):
@@ -754,13 +803,15 @@ def work_symext(task, res: Result):
         npt = cert["hi"] is not None and float(cert["hi"]) <= -1e-6
     for level, form, ppt in task["calls"]:
         dim = {"none": None, "int": int(dA), "list": [dA, dB], "ndarray": np.array([dA, dB])}[form]
-        out, branch, exc = observed_call("has_symmetric_extension", np.array(rho, copy=True), level, dim, ppt)
+        arr, guard = _give(task, rho, "symext", level, form, ppt)
+        out, branch, exc = observed_call("has_symmetric_extension", arr, level, dim, ppt)
+        _purity(res, "has_symmetric_extension", guard, arr, {"dA": dA, "dB": dB, "level": level, "dim_form": form, "ppt": ppt, "rho": rho, "pres": task.get("pres")})
         res.count(f"symext-branch/{branch}/{out}")
         oracle = bool(inst.get("sep")) or (npt and ppt)
         res.case({"fn": "has_symmetric_extension", "level": level, "dim_form": form, "ppt": ppt, "dA": dA, "dB": dB, "family": inst["family"], "rho": digest(rho)}, oracle,
                  f"symext/{inst['family']}/{dA}x{dB}/level{level}")
-        info = {"function": "has_symmetric_extension", "args": {"dA": dA, "dB": dB, "level": level, "dim_form": form, "ppt": ppt, "family": inst["family"], "k": inst.get("k"), "rho": rho},
-                "impl": out, "branch": branch, "exception": exc, "separable_by_construction": bool(inst.get("sep")), "dA": dA, "dB": dB}
+        info = {"function": "has_symmetric_extension", "args": {"dA": dA, "dB": dB, "level": level, "dim_form": form, "ppt": ppt, "family": inst["family"], "k": inst.get("k"), "rho": rho, "pres": task.get("pres")},
+                "presentation": describe(arr), "impl": out, "branch": branch, "exception": exc, "separable_by_construction": bool(inst.get("sep")), "dA": dA, "dB": dB}
         if inst.get("sep") and out is not True:
             res.violation(f"has_symmetric_extension(level={level}, dim={form}, ppt={ppt}) = {out} on a mixture of product states on {dA}x{dB} (branch {branch}; {exc})",
                           {**info, "model": True, "theorem": "sepMix_separable (a separable state has symmetric extensions of every order)"})
@@ -967,6 +1018,9 @@ def run(ctx, model_ok=True):
         if t["kind"] == "symext":
             return 2 if t["inst"]["dA"] * t["inst"]["dB"] > 6 else 0
         return 0
+    prs = rng.spawn(1)[0]   # presentation stream: a child of the seeded generator (spawning does not consume the parent's draws)
+    for t in tasks:
+        t["pres"] = int(prs.integers(1, 2 ** 31))
     tasks.sort(key=lambda t: -weight(t))
     run_pool(ctx, work, tasks)
     br = {k: v for k, v in ctx.hist.items() if k.startswith("is_separable-branch/")}
@@ -993,7 +1047,7 @@ def replay(ctx, rec):
     res = Result()
     if fn in ("is_ppt", "is_npt"):
         inst = {"family": a.get("family", "replay"), "dA": a["dA"], "dB": a["dB"], "rho": _arr(a["rho"]), "sep": None, "terms": None, "cplx": True, "meta": a.get("meta")}
-        work_ppt({"inst": inst, "calls": [(a["sys"], a["dim_form"], a["tol"])], "model_ok": True}, res)
+        work_ppt({"inst": inst, "calls": [(a["sys"], a["dim_form"], a["tol"])], "model_ok": True, "pres": a.get("pres")}, res)
     elif fn == "is_separable" and rec.get("kind") == "invariance":
         warnings.filterwarnings("ignore")
         b0, d0 = _arr(rec["base_rho"]), rec["base_dims"]
@@ -1007,15 +1061,15 @@ def replay(ctx, rec):
     elif fn == "is_separable":
         inst = {"family": a.get("family", "replay"), "dA": a["dA"], "dB": a["dB"], "rho": _arr(a["rho"]), "sep": rec.get("separable_by_construction"), "terms": None, "cplx": True,
                 "k": a.get("k"), "meta": a.get("meta")}
-        work_sep({"inst": inst, "forms": [a["dim_form"] if a.get("dim_form") in ("list", "int", "none") else "list"], "model_ok": True}, res)
+        work_sep({"inst": inst, "forms": [a["dim_form"] if a.get("dim_form") in ("list", "int", "none") else "list"], "model_ok": True, "pres": a.get("pres")}, res)
     elif fn == "has_symmetric_extension":
         inst = {"family": a.get("family", "replay"), "dA": a["dA"], "dB": a["dB"], "rho": _arr(a["rho"]), "sep": rec.get("separable_by_construction"), "terms": None, "cplx": True, "k": a.get("k")}
-        work_symext({"inst": inst, "calls": [(a["level"], a["dim_form"], a["ppt"])], "model_ok": True}, res)
+        work_symext({"inst": inst, "calls": [(a["level"], a["dim_form"], a["ppt"])], "model_ok": True, "pres": a.get("pres")}, res)
     elif fn == "in_separable_ball":
-        work_ball({"M": _arr(a["M"]) if a["form"] == "matrix" else np.asarray(_arr(a["M"])), "form": a["form"], "model_ok": True}, res)
+        work_ball({"M": _arr(a["M"]) if a["form"] == "matrix" else np.asarray(_arr(a["M"])), "form": a["form"], "model_ok": True, "pres": a.get("pres")}, res)
     elif fn in ("partial_transpose", "swap"):
         inst = {"family": "replay", "dA": a["dA"], "dB": a["dB"], "rho": _arr(a["rho"]), "sep": None, "terms": None, "cplx": True}
-        work_pt_tie({"inst": inst, "model_ok": True}, res)
+        work_pt_tie({"inst": inst, "model_ok": True, "pres": a.get("pres")}, res)
     else:
         raise InfraError(f"cannot replay function {fn}")
     fold(ctx, res)
